@@ -229,6 +229,8 @@ BODY_A = {
     "a15": ['"Hp" / 2', ("lower", '"Hp" + "B"'), '"B"'],
     # a scope function of two *series* (it reads another order of its second argument, so it needs the series itself)
     "a18": ['lag("Hp", "B") + "Hp" / 2', ("offdiagonal", '-lag("B", "Hp")')],
+    # a divided sum in which, for some indices, exactly one summand is present (the quotient must be a new value)
+    "a19": ['("Hp" + "B") / 2', ("diagonal", '("B" + "Hp") / -2')],
     "a17": ['"Hp" - ("B" + "Hp @ A")', ("offdiagonal", '"Hp" - ("B".adj - "Hp" / 2)')],
     "a16": [("diagonal", '"Hp" - ("B" + "B".adj) / 2'), ("diagonal", 'zero if flags[index[0]] else "Hp @ A" + "Hp @ A".adj'),
             ("offdiagonal", '-f("Hp")')],
@@ -246,6 +248,7 @@ BODY_B = {
     "b10": ['"Hp @ A @ Hp @ A" + "Hp"'],
     "b11": [("lower", '-"A".adj'), '"Hp"'],
     "b12": ['"Hp"', ("diagonal", '"A"'), ("lower", '-"A".adj'), '"Hp @ A"'],
+    "b15": [("offdiagonal", '("Hp" + "A".adj) / 2')],
     "b13": ['-(-"Hp" - "Hp @ A") / -2', ("offdiagonal", '"Hp" if flags[index[1]] else zero')],
 }
 # a second input series (its name is substituted for IN2): used as start value and in the body
